@@ -150,6 +150,47 @@ def abandoned_connect_rules(run):
               'a detached forwarder answers a SYN with error(connection_refused) carrying the channel along hops[0], on every such path')
 
 
+def peer_gone_rule(run):
+    """Once the peer's error packet (its close) has arrived nothing sent is acknowledged any more: a writer parked for the
+    window would wait forever (and so would every later write once the window is full).  The error branch of
+    tcp::socket::incoming_packet empties the route to the peer - write_some_impl then fails with not_connected - and
+    re-dispatches the parked writer, on every path of an established connection."""
+    fx = run.fx
+    run.clause('a peer that hangs up fails the writer instead of parking it forever: on an error packet the route to the peer is emptied and maybe_wakeup_writer() runs (shared C06/C16)')
+    ipk = fx.fn1(T + '::incoming_packet')
+    run.touch(ipk)
+    wk = [c for c in ipk.calls() if q.callee_name(c) == T + '::maybe_wakeup_writer']
+    clr = []
+    for n in ipk.all_nodes():
+        if (n['k'] == 'call' and n.get('opc') == '=' and n.get('args')) or (n['k'] == 'bin' and n['op'] == '='):
+            lhs, rhs = (n['args'][0], n['args'][1]) if n['k'] == 'call' else (n['lhs'], n['rhs'])
+            if 'm_channel->hops[' in q.render(ipk, lhs).replace('this->', '') and q.render(ipk, rhs).replace('sim::', '') in ('route()', 'route{}', 'route'):
+                clr.append(n)
+    def established_error(atom):
+        t_ = q.render(ipk, q.strip_casts(atom)).replace('this->', '')
+        if t_ == 'm_connect_handler':
+            return False
+        if t_ == 'm_channel':
+            return True
+        c_ = q.cmp_atom(atom)
+        if c_ and q.render(ipk, q.strip_casts(c_[1])) == 'p.type' and c_[0] in ('==', '!='):
+            r_ = q.render(ipk, c_[2])
+            return (r_.endswith('::error')) == (c_[0] == '==')
+        return None
+    err_wk = [c for c in wk if any((lambda c_: c_ and q.render(ipk, q.strip_casts(c_[1])) == 'p.type' and 'error' in q.render(ipk, c_[2]))(q.cmp_atom(g_)) and pol_ for g_, pol_ in q.guards_at(ipk, c))]
+    ok = bool(err_wk) and bool(clr) and all(q.any_precedes(ipk, clr, c) for c in err_wk)
+    # the switch on p.type is followed through its case label: start the path query at the error/payload case
+    run.check(ok, 'R10', 'peer-gone-fails-writer', T + '::incoming_packet:error', ipk.loc(err_wk[0]) if err_wk else ipk.loc(),
+              'an error packet from the peer (it closed) neither empties the route to it nor re-dispatches a parked writer: a write waiting for the window is never completed (no ACK will come) - e.g. a server sending a large response to a client that hangs up stays in async_write forever and never accepts the next client',
+              'under p.type == error: m_channel->hops[remote] = route() precedes maybe_wakeup_writer()')
+    ws = fx.fn1(T + '::write_some_impl')
+    run.touch(ws)
+    nc = [n for n in ws.all_nodes() if ((n['k'] == 'call' and n.get('opc') == '=') or (n['k'] == 'bin' and n['op'] == '=')) and 'not_connected' in q.render(ws, n) and
+          any('empty()' in q.render(ws, g_) and pol_ for g_, pol_ in q.guards_at(ws, n))]
+    run.check(bool(nc), 'R10', 'peer-gone-fails-writer', T + '::write_some_impl', ws.loc(nc[0]) if nc else ws.loc(),
+              'write_some_impl no longer fails when the route to the peer is empty: after the peer hung up a write is accepted and then waits forever for the window', 'an empty route to the peer fails the write with not_connected')
+
+
 def acceptor_reopen_rule(run):
     """socket::open() closes the socket first, but with static binding: re-opening an OPEN acceptor through the inherited
     open() runs socket::close(), not acceptor::close(), so the listen state and the accept queue survive. The acceptor
@@ -397,6 +438,7 @@ def check(run):
 
     accept_queue_drained_rule(run)
     abandoned_connect_rules(run)
+    peer_gone_rule(run)
     run.clause('an accept is outstanding exactly while a handler slot is set: the hand-out in check_accept_queue is decided by the handler slots (shared with C06/C16)')
     import p06 as _p06
     _p06.accept_queue_rules(run)
